@@ -1,16 +1,17 @@
 import FluentProofs.SerializerOutDeep
 import FluentProofs.SerializerOutComment
 import FluentProofs.ParserValidEntry
+import FluentProofs.SerializerFinal
 /-!
 # Serializer lemmas, part 20: from `ValidEntry` to the class `rtEntry` (C04, "parser output is in the class")
 
 `parse_valid` (C03) says that every entry the parser produces satisfies the AST-visible syntax rules
 (`validEntry`, over span trees).  Here: those rules imply the byte-tree predicates of the
 `RoundTrippable` class on the resolved tree (`validIdent`, `validNumber`, `validStrBody`,
-`isCalleeName`, `namesNodup`, `validSelector`, `validKey`, exactly one default variant); together with
+`isCalleeName`, `namesNodup`, `selShapeB`, `validKey`, exactly one default variant); together with
 the pattern shape (`mlPattern`, a hypothesis here, lifted to every depth by `parse_deep`), the shape of
 named-argument values and the comments (`parse_comments`), every non-junk entry of the tree returned
-by `parse` that has no select expression inside a nested placeable (`noInnerSelectEntry`) is `rtEntry`.
+by `parse` is `rtEntry` (select expressions are allowed at every inline position of the class).
 -/
 namespace FluentProofs.Ser
 open FluentModel FluentModel.Syntax FluentModel.Syntax.Ser FluentProofs.Parser
@@ -107,98 +108,34 @@ theorem isNamedValue_of {f : Span → Bytes} {v : Inline Span} (h : nvShape v) :
   | placeable e => cases h
   | _ => simp [Inline.mapS, isNamedValue]
 
-/-! ## no select expression in a nested placeable -/
-
-mutual
-/-- no `{ { sel -> … } }`: a placeable at an inline position (call argument, nested placeable) never
-contains a select expression — the one restriction of the class that the parser does not enforce -/
-def nisInline : Inline Span → Bool
-  | .fn _ pos named => nisInl pos && nisNamed named
-  | .term _ _ (some (pos, named)) => nisInl pos && nisNamed named
-  | .placeable (.inline e) => nisInline e
-  | .placeable (.select _ _) => false
-  | _ => true
-def nisInl : List (Inline Span) → Bool
-  | [] => true
-  | x :: xs => nisInline x && nisInl xs
-def nisNamed : List (Span × Inline Span) → Bool
-  | [] => true
-  | (_, x) :: xs => nisInline x && nisNamed xs
-/-- an expression at a pattern position -/
-def nisExpr : Expr Span → Bool
-  | .inline e => nisInline e
-  | .select sel vs => nisInline sel && nisVariants vs
-def nisVariants : List (Variant Span) → Bool
-  | [] => true
-  | v :: vs => nisVariant v && nisVariants vs
-def nisVariant : Variant Span → Bool
-  | .mk _ val _ => nisElems val
-def nisElems : List (PatElem Span) → Bool
-  | [] => true
-  | e :: es => nisElem e && nisElems es
-def nisElem : PatElem Span → Bool
-  | .text _ => true
-  | .placeable e => nisExpr e
-end
-
-def noInnerSelectEntry : Entry Span → Bool
-  | .message m =>
-    (match m.value with
-     | some v => nisElems v
-     | none => true) && m.attributes.all (fun a => nisElems a.value)
-  | .term t => nisElems t.value && t.attributes.all (fun a => nisElems a.value)
-  | _ => true
-
 /-! ## the bridge, by structural induction over the span tree -/
 
-/-- **the only place where the restriction "no select in a nested placeable" is used**: the expression
-of a placeable at an inline position -/
-theorem validInner_of {s : Src} (e : Expr Span) (hn : nisInline (.placeable e) = true) (hv : vExpr s e = true)
-    (ih : ∀ i, e = .inline i → validInline (i.mapS (spanBytes s)) = true) :
-    validInner (e.mapS (spanBytes s)) = true := by
-  cases e with
-  | select sel vs => simp [nisInline] at hn
-  | inline i =>
-    have hi := ih i rfl
-    simp only [vExpr, Bool.and_eq_true, Bool.not_eq_true'] at hv
-    cases i with
-    | term id attr args =>
-      cases attr with
-      | some a => simp [isTermAttr] at hv
-      | none =>
-        cases args with
-        | none => simpa [Expr.mapS, Inline.mapS, validInner] using hi
-        | some pn => obtain ⟨pos, named⟩ := pn; simpa [Expr.mapS, Inline.mapS, validInner] using hi
-    | _ => simpa [Expr.mapS, Inline.mapS, validInner] using hi
-
-/-- the inline expression of a top-level placeable -/
-theorem validInner_inline_of {s : Src} (i : Inline Span) (hv : vExpr s (.inline i) = true)
-    (hi : validInline (i.mapS (spanBytes s)) = true) : validInner (.inline (i.mapS (spanBytes s))) = true := by
-  simp only [vExpr, Bool.and_eq_true, Bool.not_eq_true'] at hv
+/-- an inline expression that is not a term attribute, as the expression of a placeable -/
+theorem rtExpr_inline_of {f : Span → Bytes} (i : Inline Span) (hnt : isTermAttr i = false)
+    (hi : rtInline (i.mapS f) = true) : rtExpr (.inline (i.mapS f)) = true := by
   cases i with
   | term id attr args =>
     cases attr with
-    | some a => simp [isTermAttr] at hv
+    | some a => simp [isTermAttr] at hnt
     | none =>
       cases args with
-      | none => simpa [Inline.mapS, validInner] using hi
-      | some pn => obtain ⟨pos, named⟩ := pn; simpa [Inline.mapS, validInner] using hi
-  | _ => simpa [Inline.mapS, validInner] using hi
+      | none => simpa [Inline.mapS, rtExpr] using hi
+      | some pn => obtain ⟨pos, named⟩ := pn; simpa [Inline.mapS, rtExpr] using hi
+  | _ => simpa [Inline.mapS, rtExpr] using hi
 
-theorem validSelector_of {f : Span → Bytes} (sel : Inline Span) (hs : selectorOk sel = true)
-    (hv : validInline (sel.mapS f) = true) : validSelector (sel.mapS f) = true := by
-  simp only [validSelector, hv, Bool.true_and]
+theorem selShapeB_of {f : Span → Bytes} (sel : Inline Span) (hs : selectorOk sel = true) :
+    selShapeB (sel.mapS f) = true := by
   cases sel with
   | term id attr args =>
     cases attr with
     | none => simp [selectorOk] at hs
     | some a =>
       cases args with
-      | none => simp [Inline.mapS]
-      | some pn => obtain ⟨pos, named⟩ := pn; simp [Inline.mapS]
+      | none => simp [Inline.mapS, selShapeB]
+      | some pn => obtain ⟨pos, named⟩ := pn; simp [Inline.mapS, selShapeB]
   | msg id attr => simp [selectorOk] at hs
   | placeable e => simp [selectorOk] at hs
-  | _ => simp [Inline.mapS]
+  | _ => simp [Inline.mapS, selShapeB]
 
 /-- the per-call pattern fact that is assumed: the pattern shape of the resolved pattern -/
 abbrev PPs (s : Src) : List (PatElem Span) → Prop := fun els => mlPattern (mapPat (spanBytes s) els) = true
@@ -206,136 +143,113 @@ abbrev PPs (s : Src) : List (PatElem Span) → Prop := fun els => mlPattern (map
 section bridge
 variable {s : Src}
 
-
 mutual
 theorem bInline : ∀ (i : Inline Span), vInline s i = true → dInline (PPs s) nvShape i →
-    nisInline i = true → validInline (i.mapS (spanBytes s)) = true
-  | .str v, hv, _, _ => validStrBody_of _ hv
-  | .num v, hv, _, _ => validNumber_of _ hv
-  | .var id, hv, _, _ => identOk_valid hv
-  | .msg id attr, hv, _, _ => by
+    rtInline (i.mapS (spanBytes s)) = true
+  | .str v, hv, _ => validStrBody_of _ hv
+  | .num v, hv, _ => validNumber_of _ hv
+  | .var id, hv, _ => identOk_valid hv
+  | .msg id attr, hv, _ => by
     simp only [vInline, Bool.and_eq_true] at hv
-    simp only [Inline.mapS, validInline, Bool.and_eq_true]
+    simp only [Inline.mapS, rtInline, Bool.and_eq_true]
     exact ⟨identOk_valid hv.1, optIdent_of hv.2⟩
-  | .term id attr none, hv, _, _ => by
+  | .term id attr none, hv, _ => by
     simp only [vInline, Bool.and_eq_true] at hv
-    simp only [Inline.mapS, validInline, Bool.and_eq_true]
+    simp only [Inline.mapS, rtInline, Bool.and_eq_true]
     exact ⟨identOk_valid hv.1, optIdent_of hv.2⟩
-  | .term id attr (some (pos, named)), hv, hd, hn => by
+  | .term id attr (some (pos, named)), hv, hd => by
     simp only [vInline, Bool.and_eq_true] at hv
     simp only [dInline] at hd
-    simp only [nisInline, Bool.and_eq_true] at hn
-    simp only [Inline.mapS, validInline, Bool.and_eq_true]
-    exact ⟨⟨⟨⟨identOk_valid hv.1.1.1.1, optIdent_of hv.1.1.1.2⟩, bInl pos hv.1.1.2 hd.1 hn.1⟩,
-      bNamed named hv.1.2 hd.2 hn.2⟩, namesNodup_of hv.2⟩
-  | .fn id pos named, hv, hd, hn => by
+    simp only [Inline.mapS, rtInline, Bool.and_eq_true]
+    exact ⟨⟨⟨⟨identOk_valid hv.1.1.1.1, optIdent_of hv.1.1.1.2⟩, bInl pos hv.1.1.2 hd.1⟩,
+      bNamed named hv.1.2 hd.2⟩, namesNodup_of hv.2⟩
+  | .fn id pos named, hv, hd => by
     simp only [vInline, Bool.and_eq_true] at hv
     simp only [dInline] at hd
-    simp only [nisInline, Bool.and_eq_true] at hn
-    simp only [Inline.mapS, validInline, Bool.and_eq_true]
-    exact ⟨⟨⟨⟨identOk_valid hv.1.1.1.1, isCalleeName_of hv.1.1.1.2⟩, bInl pos hv.1.1.2 hd.1 hn.1⟩,
-      bNamed named hv.1.2 hd.2 hn.2⟩, namesNodup_of hv.2⟩
-  | .placeable (.inline i), hv, hd, hn => by
+    simp only [Inline.mapS, rtInline, Bool.and_eq_true]
+    exact ⟨⟨⟨⟨identOk_valid hv.1.1.1.1, isCalleeName_of hv.1.1.1.2⟩, bInl pos hv.1.1.2 hd.1⟩,
+      bNamed named hv.1.2 hd.2⟩, namesNodup_of hv.2⟩
+  | .placeable e, hv, hd => by
     simp only [vInline] at hv
-    simp only [Inline.mapS, validInline]
-    refine validInner_of _ hn hv ?_
-    intro i' hi'
-    cases hi'
-    simp only [vExpr, Bool.and_eq_true] at hv
-    simp only [dInline, dExpr] at hd
-    simp only [nisInline] at hn
-    exact bInline i hv.1 hd hn
-  | .placeable (.select sel vs), _, _, hn => by simp [nisInline] at hn
+    simp only [dInline] at hd
+    simp only [Inline.mapS, rtInline]
+    exact bExpr e hv hd
 theorem bInl : ∀ (xs : List (Inline Span)), vInl s xs = true → dInl (PPs s) nvShape xs →
-    nisInl xs = true → validInl (mapInl (spanBytes s) xs) = true
-  | [], _, _, _ => rfl
-  | x :: xs, hv, hd, hn => by
+    rtInl (mapInl (spanBytes s) xs) = true
+  | [], _, _ => rfl
+  | x :: xs, hv, hd => by
     simp only [vInl, Bool.and_eq_true] at hv
     simp only [dInl] at hd
-    simp only [nisInl, Bool.and_eq_true] at hn
-    simp only [mapInl, validInl, Bool.and_eq_true]
-    exact ⟨bInline x hv.1 hd.1 hn.1, bInl xs hv.2 hd.2 hn.2⟩
-theorem bNamed : ∀ (xs : List (Span × Inline Span)), vNamed s xs = true →
-    dNamed (PPs s) nvShape xs →
-    nisNamed xs = true → validNamed (mapNamed (spanBytes s) xs) = true
-  | [], _, _, _ => rfl
-  | (n, x) :: xs, hv, hd, hn => by
+    simp only [mapInl, rtInl, Bool.and_eq_true]
+    exact ⟨bInline x hv.1 hd.1, bInl xs hv.2 hd.2⟩
+theorem bNamed : ∀ (xs : List (Span × Inline Span)), vNamed s xs = true → dNamed (PPs s) nvShape xs →
+    rtNamed (mapNamed (spanBytes s) xs) = true
+  | [], _, _ => rfl
+  | (n, x) :: xs, hv, hd => by
     simp only [vNamed, Bool.and_eq_true] at hv
     simp only [dNamed] at hd
-    simp only [nisNamed, Bool.and_eq_true] at hn
-    simp only [mapNamed, validNamed, Bool.and_eq_true]
-    exact ⟨⟨⟨identOk_valid hv.1.1, isNamedValue_of hd.1.1⟩, bInline x hv.1.2 hd.1.2 hn.1⟩, bNamed xs hv.2 hd.2 hn.2⟩
+    simp only [mapNamed, rtNamed, Bool.and_eq_true]
+    exact ⟨⟨⟨identOk_valid hv.1.1, isNamedValue_of hd.1.1⟩, bInline x hv.1.2 hd.1.2⟩, bNamed xs hv.2 hd.2⟩
 theorem bExpr : ∀ (e : Expr Span), vExpr s e = true → dExpr (PPs s) nvShape e →
-    nisExpr e = true → rtExpr (e.mapS (spanBytes s)) = true
-  | .inline i, hv, hd, hn => by
-    have hv' := hv
-    simp only [vExpr, Bool.and_eq_true] at hv'
+    rtExpr (e.mapS (spanBytes s)) = true
+  | .inline i, hv, hd => by
+    simp only [vExpr, Bool.and_eq_true, Bool.not_eq_true'] at hv
     simp only [dExpr] at hd
-    simp only [nisExpr] at hn
-    simp only [Expr.mapS, rtExpr]
-    exact validInner_inline_of i hv (bInline i hv'.1 hd hn)
-  | .select sel vs, hv, hd, hn => by
+    simp only [Expr.mapS]
+    exact rtExpr_inline_of i hv.2 (bInline i hv.1 hd)
+  | .select sel vs, hv, hd => by
     simp only [vExpr, Bool.and_eq_true, beq_iff_eq] at hv
     simp only [dExpr] at hd
-    simp only [nisExpr, Bool.and_eq_true] at hn
     simp only [Expr.mapS, rtExpr, Bool.and_eq_true, decide_eq_true_eq]
-    refine ⟨⟨validSelector_of sel hv.1.1.2 (bInline sel hv.1.1.1 hd.1 hn.1), bVariants vs hv.1.2 hd.2 hn.2⟩, ?_⟩
+    refine ⟨⟨⟨bInline sel hv.1.1.1 hd.1, selShapeB_of sel hv.1.1.2⟩, bVariants vs hv.1.2 hd.2⟩, ?_⟩
     rw [filter_default_length]; exact hv.2
-theorem bVariants : ∀ (vs : List (Variant Span)), vVariants s vs = true →
-    dVariants (PPs s) nvShape vs →
-    nisVariants vs = true → rtVariants (mapVariants (spanBytes s) vs) = true
-  | [], _, _, _ => rfl
-  | v :: vs, hv, hd, hn => by
+theorem bVariants : ∀ (vs : List (Variant Span)), vVariants s vs = true → dVariants (PPs s) nvShape vs →
+    rtVariants (mapVariants (spanBytes s) vs) = true
+  | [], _, _ => rfl
+  | v :: vs, hv, hd => by
     simp only [vVariants, Bool.and_eq_true] at hv
     simp only [dVariants] at hd
-    simp only [nisVariants, Bool.and_eq_true] at hn
     simp only [mapVariants, rtVariants, Bool.and_eq_true]
-    exact ⟨bVariant v hv.1 hd.1 hn.1, bVariants vs hv.2 hd.2 hn.2⟩
-theorem bVariant : ∀ (v : Variant Span), vVariant s v = true →
-    dVariant (PPs s) nvShape v →
-    nisVariant v = true → rtVariant (v.mapS (spanBytes s)) = true
-  | .mk k val d, hv, hd, hn => by
+    exact ⟨bVariant v hv.1 hd.1, bVariants vs hv.2 hd.2⟩
+theorem bVariant : ∀ (v : Variant Span), vVariant s v = true → dVariant (PPs s) nvShape v →
+    rtVariant (v.mapS (spanBytes s)) = true
+  | .mk k val d, hv, hd => by
     simp only [vVariant, Bool.and_eq_true] at hv
     simp only [dVariant] at hd
-    simp only [nisVariant] at hn
     simp only [Variant.mapS, rtVariant, Bool.and_eq_true]
-    exact ⟨⟨validKey_of hv.1.1, hd.1⟩, bElems val hv.2 hd.2 hn⟩
-theorem bElems : ∀ (es : List (PatElem Span)), vPat s es = true →
-    dElems (PPs s) nvShape es →
-    nisElems es = true → rtElems (mapPat (spanBytes s) es) = true
-  | [], _, _, _ => rfl
-  | .text v :: es, hv, hd, hn => by
+    exact ⟨⟨validKey_of hv.1.1, hd.1⟩, bElems val hv.2 hd.2⟩
+theorem bElems : ∀ (es : List (PatElem Span)), vPat s es = true → dElems (PPs s) nvShape es →
+    rtElems (mapPat (spanBytes s) es) = true
+  | [], _, _ => rfl
+  | .text v :: es, hv, hd => by
     simp only [vPat, Bool.and_eq_true] at hv
     simp only [dElems] at hd
-    simp only [nisElems, Bool.and_eq_true] at hn
     simp only [mapPat, PatElem.mapS, rtElems]
-    exact bElems es hv.2 hd.2 hn.2
-  | .placeable e :: es, hv, hd, hn => by
+    exact bElems es hv.2 hd.2
+  | .placeable e :: es, hv, hd => by
     simp only [vPat, vPatElem, Bool.and_eq_true] at hv
     simp only [dElems, dElem] at hd
-    simp only [nisElems, nisElem, Bool.and_eq_true] at hn
     simp only [mapPat, PatElem.mapS, rtElems, Bool.and_eq_true]
-    exact ⟨bExpr e hv.1 hd.1 hn.1, bElems es hv.2 hd.2 hn.2⟩
+    exact ⟨bExpr e hv.1 hd.1, bElems es hv.2 hd.2⟩
 end
 
 end bridge
 
 /-! ## patterns, attributes, entries -/
 
-theorem rtPattern_of {s : Src} (els : List (PatElem Span)) (hv : vPat s els = true) (hd : dPat (PPs s) nvShape els)
-    (hn : nisElems els = true) : rtPattern (mapPat (spanBytes s) els) = true := by
+theorem rtPattern_of {s : Src} (els : List (PatElem Span)) (hv : vPat s els = true) (hd : dPat (PPs s) nvShape els) :
+    rtPattern (mapPat (spanBytes s) els) = true := by
   simp only [rtPattern, Bool.and_eq_true]
-  exact ⟨hd.1, bElems els hv hd.2 hn⟩
+  exact ⟨hd.1, bElems els hv hd.2⟩
 
-theorem rtAttrs_of {s : Src} (as : List (Attribute Span)) (hv : as.all (attrOk s) = true) (hd : dAttrs (PPs s) nvShape as)
-    (hn : as.all (fun a => nisElems a.value) = true) :
+theorem rtAttrs_of {s : Src} (as : List (Attribute Span)) (hv : as.all (attrOk s) = true) (hd : dAttrs (PPs s) nvShape as) :
     (as.map (Attribute.mapS (spanBytes s))).all rtAttr = true := by
-  simp only [List.all_eq_true, List.mem_map] at hv hn ⊢
+  simp only [List.all_eq_true, List.mem_map] at hv ⊢
   rintro _ ⟨a, ha, rfl⟩
   have h1 := hv a ha
   simp only [attrOk, patOk, Bool.and_eq_true] at h1
   simp only [rtAttr, Attribute.mapS, Bool.and_eq_true]
-  exact ⟨identOk_valid h1.1, rtPattern_of _ h1.2.2 (hd a ha) (hn a ha)⟩
+  exact ⟨identOk_valid h1.1, rtPattern_of _ h1.2.2 (hd a ha)⟩
 
 theorem rtOptComment_of {s : Src} (o : Option (List Span)) (h : OptCmtOK s o) :
     rtOptComment (o.map (List.map (spanBytes s))) = true := by
@@ -343,9 +257,9 @@ theorem rtOptComment_of {s : Src} (o : Option (List Span)) (h : OptCmtOK s o) :
   | none => rfl
   | some c => exact h c rfl
 
-/-- one entry: valid, deeply of the pattern shape, comments of the class, no inner select -/
-theorem rtEntry_of {s : Src} (e : Entry Span) (hv : ValidEntry s e) (hd : dEntry (PPs s) nvShape e) (hc : cEntry s e)
-    (hn : noInnerSelectEntry e = true) : (∃ c, e = .junk c) ∨ rtEntry (e.mapS (spanBytes s)) = true := by
+/-- one entry: valid, deeply of the pattern shape, comments of the class -/
+theorem rtEntry_of {s : Src} (e : Entry Span) (hv : ValidEntry s e) (hd : dEntry (PPs s) nvShape e) (hc : cEntry s e) :
+    (∃ c, e = .junk c) ∨ rtEntry (e.mapS (spanBytes s)) = true := by
   cases e with
   | junk c => exact Or.inl ⟨c, rfl⟩
   | comment c => exact Or.inr hc
@@ -354,16 +268,13 @@ theorem rtEntry_of {s : Src} (e : Entry Span) (hv : ValidEntry s e) (hd : dEntry
   | term t =>
     right
     simp only [ValidEntry, validEntry, patOk, Bool.and_eq_true] at hv
-    simp only [noInnerSelectEntry, Bool.and_eq_true] at hn
     simp only [Entry.mapS, rtEntry, Bool.and_eq_true]
-    exact ⟨⟨⟨identOk_valid hv.1.1, rtPattern_of _ hv.1.2.2 hd.1 hn.1⟩, rtAttrs_of _ hv.2 hd.2 hn.2⟩,
-      rtOptComment_of _ hc⟩
+    exact ⟨⟨⟨identOk_valid hv.1.1, rtPattern_of _ hv.1.2.2 hd.1⟩, rtAttrs_of _ hv.2 hd.2⟩, rtOptComment_of _ hc⟩
   | message m =>
     right
     simp only [ValidEntry, validEntry, Bool.and_eq_true] at hv
-    simp only [noInnerSelectEntry, Bool.and_eq_true] at hn
     simp only [Entry.mapS, rtEntry, Bool.and_eq_true]
-    refine ⟨⟨⟨identOk_valid hv.1.1.1, ?_⟩, rtAttrs_of _ hv.1.2 hd.2 hn.2⟩, rtOptComment_of _ hc⟩
+    refine ⟨⟨⟨identOk_valid hv.1.1.1, ?_⟩, rtAttrs_of _ hv.1.2 hd.2⟩, rtOptComment_of _ hc⟩
     cases hval : m.value with
     | none =>
       have := hv.2
@@ -371,42 +282,37 @@ theorem rtEntry_of {s : Src} (e : Entry Span) (hv : ValidEntry s e) (hd : dEntry
       simpa using this
     | some v =>
       have h1 := hv.1.1.2
-      have h2 := hn.1
-      simp only [hval, patOk, Bool.and_eq_true] at h1 h2
+      simp only [hval, patOk, Bool.and_eq_true] at h1
       simp only [Option.map_some]
-      exact rtPattern_of v h1.2 (hd.1 v hval) h2
+      exact rtPattern_of v h1.2 (hd.1 v hval)
 
 /-- **The parser's output is in the class.**  For a source without the byte 13, given the pattern shape of
-everything `get_pattern` returns: every entry of the tree returned by `parse` is Junk, or — unless it
-contains a select expression inside a nested placeable — an entry of the class `rtEntry`. -/
+everything `get_pattern` returns: every entry of the tree returned by `parse` is Junk or an entry of the class
+`rtEntry`. -/
 theorem rtEntry_of_parse (s : Src) (hcr : ∀ j : Nat, s[j]? ≠ some (13 : UInt8))
     (hpat : ∀ n p els q, getPattern s n p = .ok (some els) q → mlPattern (mapPat (spanBytes s) els) = true)
     (t : Resource Span) (errs : List PErr) (h : parse s = .done (t, errs)) :
-    ∀ e ∈ t, (∃ c, e = .junk c) ∨ (noInnerSelectEntry e = true → rtEntry (e.mapS (spanBytes s)) = true) := by
+    ∀ e ∈ t, (∃ c, e = .junk c) ∨ rtEntry (e.mapS (spanBytes s)) = true := by
   intro e he
-  have hv := parse_valid s t errs h e he
-  have hd := parse_deep s (PPs s) nvShape hpat (getInline_literal_shape s) t errs h e he
-  have hc := parse_comments s hcr t errs h e he
-  by_cases hj : ∃ c, e = .junk c
-  · exact Or.inl hj
-  · right
-    intro hn
-    rcases rtEntry_of e hv hd hc hn with h' | h'
-    · exact absurd h' hj
-    · exact h'
+  exact rtEntry_of e (parse_valid s t errs h e he)
+    (parse_deep s (PPs s) nvShape hpat (getInline_literal_shape s) t errs h e he)
+    (parse_comments s hcr t errs h e he)
 
-/-- resource form: if no entry is Junk and no entry has a select inside a nested placeable, the resolved tree
-is `RoundTrippable` -/
+/-- resource form: the resolved tree is `RoundTrippable withJunk`, provided — when Junk is to be serialised —
+that there is no Junk entry -/
 theorem roundTrippable_of_parse (s : Src) (hcr : ∀ j : Nat, s[j]? ≠ some (13 : UInt8))
     (hpat : ∀ n p els q, getPattern s n p = .ok (some els) q → mlPattern (mapPat (spanBytes s) els) = true)
-    (t : Resource Span) (errs : List PErr) (h : parse s = .done (t, errs))
-    (hnj : ∀ e ∈ t, ∀ c, e ≠ .junk c) (hn : ∀ e ∈ t, noInnerSelectEntry e = true) :
-    ∀ e ∈ resolve s t, rtEntry e = true := by
-  intro e he
-  simp only [resolve, List.mem_map] at he
-  obtain ⟨e', he', rfl⟩ := he
-  rcases rtEntry_of_parse s hcr hpat t errs h e' he' with ⟨c, hc⟩ | h'
-  · exact absurd hc (hnj e' he' c)
-  · exact h' (hn e' he')
+    (t : Resource Span) (errs : List PErr) (h : parse s = .done (t, errs)) :
+    ∀ withJunk : Bool, (withJunk = true → ∀ e ∈ t, ∀ c, e ≠ .junk c) →
+      RoundTrippable withJunk (resolve s t) = true := by
+  intro withJunk hnj
+  simp only [RoundTrippable, resolve, List.all_eq_true, List.mem_map]
+  rintro _ ⟨e, he, rfl⟩
+  rcases rtEntry_of_parse s hcr hpat t errs h e he with ⟨c, hc⟩ | h'
+  · subst hc
+    cases withJunk with
+    | true => exact absurd rfl (hnj rfl _ he c)
+    | false => simp [Entry.mapS, isJunk]
+  · simp [h']
 
 end FluentProofs.Ser
